@@ -417,6 +417,15 @@ int main(void)
 			if (!arr->_buf && a) BAD;
 			RES_PTR(mpt_array_set(arr, sb->_content_traits, c * e, ((const uint8_t *) (sb + 1)) + b * e, (long) a));
 		}
+		else if (!strcmp(op, "selfset") && drv_nw == 4) {
+			/* element i is assigned a copy of itself (the source is a second pointer to the same referent, held in a
+			 * local copy of the element bytes): the referent must survive */
+			uint8_t tmp[32];
+			size_t e = esize_of(arr->_buf);
+			if (!e || e > sizeof(tmp) || drv_parse_nat(drv_w[3], &a) || a >= count_of(arr->_buf)) BAD;
+			memcpy(tmp, ((const uint8_t *) (arr->_buf + 1)) + a * e, e);
+			RES_PTR(mpt_array_set(arr, arr->_buf->_content_traits, e, tmp, (long) a));
+		}
 		else if (!strcmp(op, "sput") && drv_nw == 5) {
 			/* the array of h as the dimensions of a raw data stage: val = mpt_stage_data(stage, dim), then one more
 			 * value in that dimension (mpt_values_prepare on the array inside the returned element) */
